@@ -503,6 +503,18 @@ Example C17_protect_env_pubkey_examples :
   protect_env_ok symg SHA512 ex_rkE ex_rkid (parsed ex_sid) 361 31 23 ex_ep_ecdh ex_r1 ex_r3.
 Proof. exact (conj example_protect_env_dh example_protect_env_ecdh). Qed.
 
+(* ---- a request is only issued on a context the server accepted (C15's clause, composed over the whole conversation) ---------------
+   if a REQUEST is on the wire at all (ept_map on the first connection, GetKey on the second), then the bind_ack of THAT connection's peer
+   accepted (result ACCEPTANCE) the presentation context whose id the request carries: bind_run's result vector is the bind_ack's
+   (C15_result / C15_anonymous) and process_bind_result passed on it (C15_context) before the request was framed *)
+From V Require Import Proofs.C17Contexts.
+Theorem C17_request_on_accepted_context : forall f (wrap : wrap_fn) (unwrap : unwrap_fn) pv legs dc sd rk l0 l1 l2 r t,
+  get_key_conversation f wrap unwrap pv legs dc sd rk l0 l1 l2 = (r, t) ->
+  (tr_ept_request t <> None -> accepted_by (ds_epm_srv dc) (context_ids epm_contexts) c_onl_epm_ctx_id) /\
+  (tr_getkey_request t <> None -> accepted_by (ds_isd_srv dc) (context_ids isd_key_contexts) c_onl_isd_ctx_id).
+Proof. exact conversation_request_contexts. Qed.
+Print Assumptions C17_request_on_accepted_context.
+
 (* ---- the two forms of "the public function with the cache-miss branch filled in" are one function --------------------------------
    Flow_cache_public.unprotect_online / protect_online are what C10's flow ties identify with the regenerated ncrypt_unprotect_secret /
    ncrypt_protect_secret (both flavours); unprotect_via_dc / protect_via_dc are what C17_online_unprotect / C17_online_protect are about.
